@@ -144,7 +144,7 @@ def must_check_microlp(F, R, f, call):
         opt_not_feas = not _mentions_variant(ao["body"], SOLSTATUS + "::Feasible") or ao is af and False
         ok_table = interrupted_err and feas and (ao is not af)
         detail = "Interrupted arm -> %s (must be Err); Feasible arm mentions SolutionStatus::Feasible: %s; Optimal and Feasible arms distinct: %s" % (hi[:2], feas, ao is not af)
-    R.ob("MUST-CHECK", key + ":status-table", ok_table, F.loc(f, status_match) if status_match else where, detail)
+    R.ob("MUST-CHECK", key + ":status-table", ok_table, F.loc(f, status_match) if status_match else where, detail, positive=status_match is not None)
     # the Feasible label must reach LpSolution::with_status
     ws = [n for n in walk(f["body"]) if n.get("k") == "MCall" and n.get("name") == "with_status"]
     flows = False
@@ -209,7 +209,7 @@ def goodlp_status(F, R):
                     tab[ph[1].rsplit("::", 1)[-1]] = h[1].rsplit("::", 1)[-1] if h[0] == "variant" else str(h)
         want = {"Optimal": "Optimal", "TimeLimit": "Feasible", "GapLimit": "Feasible"}
         R.table("good_lp_status", tab)
-        R.ob("MUST-CHECK", "good_lp:status-table", tab == want, F.loc(f, m), "good_lp status mapping %s, expected %s (a limit-stopped solve must be labelled Feasible)" % (tab, want))
+        R.ob("MUST-CHECK", "good_lp:status-table", tab == want, F.loc(f, m), "good_lp status mapping %s, expected %s (a limit-stopped solve must be labelled Feasible)" % (tab, want), positive=set(tab) == set(want) and all(v in ("Optimal", "Feasible") for v in tab.values()))
         lf = LocalFlow(f["body"])
         ws = [w for w in walk(f["body"]) if w.get("k") == "MCall" and w.get("name") == "with_status"]
         flows = False
